@@ -1784,7 +1784,8 @@ class Interp:
                 return self.finish_call(fr, st2, bb, t, ret, k)
         # 4. unmodelled external (known total functions are not reported; everything else fails closed in C07.R1)
         from .models import TOTAL_EXTERNALS
-        if tname in TOTAL_EXTERNALS or name in TOTAL_EXTERNALS or _strip_generics(cal.name) in TOTAL_EXTERNALS:
+        if tname in TOTAL_EXTERNALS or name in TOTAL_EXTERNALS or _strip_generics(cal.name) in TOTAL_EXTERNALS or \
+                tname.startswith(("core::fmt::rt::Argument", "std::fmt::Arguments", "core::fmt::Arguments")):
             self.stats["total_external"] = self.stats.get("total_external", 0) + 1
         else:
             self.unmodelled[tname] += 1
